@@ -145,10 +145,6 @@ where
         );
         computer.set_additional_assumptions(encoder_ref.assumptions().to_vec());
         let arg = self.af.argument_set().get_argument(arg).unwrap();
-        let mut first_maximal = true;
-        let mut in_all_maximal = None;
-        let mut missing_in_one_maximal =
-            vec![false; 1 + self.af.max_argument_id().unwrap_or_default()];
         let bool_slice_to_labels = |v: &[bool]| {
             v.iter()
                 .enumerate()
@@ -168,61 +164,34 @@ where
             });
             in_current
         };
-        let add_defeated_in_current_to_missing =
-            |c: &MaximalExtensionComputer<T>, m: &mut [bool]| {
-                c.current().iter().for_each(|attacker| {
-                    self.af
-                        .iter_attacks_from_id(attacker.id())
-                        .for_each(|att| m[att.attacked().id()] = true);
-                });
-            };
         let (result, proved_accepted_bool, proved_refused_bool, extension) = loop {
             computer.compute_next();
             match computer.state() {
                 MaximalExtensionComputerState::Maximal => {
                     let in_current = compute_in_current_bool(&computer);
-                    add_defeated_in_current_to_missing(&computer, &mut missing_in_one_maximal);
-                    let arg_is_missing = !in_current[arg.id()];
-                    if first_maximal {
-                        in_all_maximal = Some(in_current);
-                    } else {
-                        let in_all_maximal_ref = in_all_maximal.as_mut().unwrap().as_mut_slice();
-                        in_current.iter().enumerate().for_each(|(i, b)| {
-                            if !b {
-                                in_all_maximal_ref[i] = false;
-                                missing_in_one_maximal[i] = true;
-                            }
-                        });
-                    }
-                    first_maximal = false;
-                    if arg_is_missing {
+                    if !in_current[arg.id()] {
+                        // this extension is the certificate stored with the refused arguments:
+                        // only the ones it does not contain can be recorded
+                        let missing_in_current = in_current.iter().map(|b| !b).collect();
                         break (
                             false,
                             vec![],
-                            missing_in_one_maximal,
+                            missing_in_current,
                             Some(computer.current().to_vec()),
                         );
                     }
                 }
                 MaximalExtensionComputerState::Intermediate => {
-                    let current = computer.current();
-                    add_defeated_in_current_to_missing(&computer, &mut missing_in_one_maximal);
-                    if current.contains(&arg) {
-                        if first_maximal {
-                            let in_current = compute_in_current_bool(&computer);
-                            in_all_maximal = Some(in_current);
-                        }
-                        first_maximal = false;
+                    if computer.current().contains(&arg) {
                         computer.discard_current_search();
                     }
                 }
                 MaximalExtensionComputerState::None => {
-                    break (
-                        true,
-                        in_all_maximal.unwrap_or_default(),
-                        missing_in_one_maximal,
-                        None,
-                    );
+                    // the searches reaching the argument were discarded before they got maximal:
+                    // nothing is proved for the other arguments
+                    let mut accepted = vec![false; 1 + self.af.max_argument_id().unwrap_or_default()];
+                    accepted[arg.id()] = true;
+                    break (true, accepted, vec![], None);
                 }
                 _ => {}
             }
